@@ -318,6 +318,30 @@ theorem atomic_facts :
     Gen.cacheShape "ClearOldEntries" = some (1, 1, 0) ∧
     Gen.cacheShape "AddEntry" = some (1, 1, 0) := by decide
 
+/-! ## the background cleaner -/
+
+/-- **cleaner_facts.** In the source as it is now the cleaner goroutine of `GetReplayCache` sleeps and
+    then clears with the retention period *read after the sleep* (the largest skew any service has
+    registered by then). -/
+theorem cleaner_facts :
+    Gen.cleanerLoop = ["time.Sleep(replayCache.getMaxAge())", "replayCache.ClearOldEntries(replayCache.getMaxAge())"] := by
+  decide
+
+/-- a clean-up with a period at least as large as a service's skew keeps every entry that service would
+    still accept -/
+theorem cleanup_keeps (c : Cache) (now maxAge d : Int) (e : Entry) (he : e ∈ c) (hd : d ≤ maxAge)
+    (hw : now - e.ctime ≤ d) : e ∈ cleanup c now maxAge := by
+  unfold cleanup
+  simp only [List.mem_filter, decide_eq_true_eq]
+  exact ⟨he, by omega⟩
+
+/-- with the period the cleaner went to sleep with (a service with a larger skew registered meanwhile),
+    an entry that service still accepts is dropped: the replay is then accepted -/
+theorem stale_period_counterexample :
+    let c := (present [] 1 1000 7).1          -- accepted by a service with skew 5000 at time 2000
+    (present (cleanup c 2300 300) 1 1000 7).2 = false ∧ (present (cleanup c 2300 5000) 1 1000 7).2 = true := by
+  decide
+
 /-! non-vacuity: a concrete history with an intervening clean-up inside the window -/
 example : (run [] [Op.present 1 1000 7, Op.present 2 1000 7, Op.cleanup 1200 300, Op.present 1 1000 8,
     Op.present 1 1000 7]).2 = [some false, some false, none, some false, some true] := by decide
